@@ -7,7 +7,7 @@
 //
 //	(kind, [(guard, mode); ...], first effect)
 //
-// guard  = allowTopic:ActionProduce | allowTopics:ActionFetch | allowGroup:ActionGroupWrite |
+// guard  = allowTopic[<name expr>]:ActionProduce | allowTopics[<expr>]:ActionFetch | allowGroup[<expr>]:ActionGroupWrite |
 //
 //	allowAdmin | allowAdminAPIs | etcdAvailable | acquireGroupLease | acquirePartitionLeases |
 //	leaseErrors | s3Health.State!=S3StateHealthy | s3Health.State:S3StateDegraded|S3StateUnavailable
@@ -17,7 +17,8 @@
 //	skip   (deny branch `continue`s inside the loop that also contains the effect: per item)
 //	filter (deny branch `continue`s / else-branch, in a loop that ends before the effect; the
 //	        loop's pass path appends the item to a slice and ONLY that slice reaches the effect)
-//	pre    (an un-guarded preparatory call recorded for visibility, e.g. acquirePartitionLeases)
+//	pre    (an un-guarded preparatory step recorded for visibility: acquirePartitionLeases;
+//	        resolved[v]: v is assigned the name a topic ID resolves to, before v is authorised)
 //
 // effect = first call, in source order on the pass path, out of: h.ensureTopic, h.getPartitionLog,
 //
@@ -65,6 +66,8 @@ func selPath(e ast.Expr) string {
 		return selPath(x.X) + "." + x.Sel.Name
 	case *ast.CallExpr:
 		return selPath(x.Fun) + "()"
+	case *ast.BasicLit:
+		return x.Value
 	}
 	return "?"
 }
@@ -93,7 +96,13 @@ func guardOfCall(c *ast.CallExpr) string {
 		if n := len(c.Args); n > 0 {
 			act = strings.TrimPrefix(selPath(c.Args[n-1]), "acl.")
 		}
-		return strings.TrimPrefix(p, "h.") + ":" + act
+		// the expression whose value is authorised (2nd argument): it matters WHICH name is
+		// checked, e.g. handleFetch must pass the resolved topicName, not the wire field topic.Topic
+		arg := ""
+		if len(c.Args) >= 3 {
+			arg = "[" + selPath(c.Args[1]) + "]"
+		}
+		return strings.TrimPrefix(p, "h.") + arg + ":" + act
 	case "h.allowAdmin":
 		return "allowAdmin"
 	case "h.etcdAvailable":
@@ -320,6 +329,18 @@ func (a *analyzer) walkStmt(st ast.Stmt, ctx *walkCtx) *result {
 					}
 				}
 				return nil
+			}
+		}
+		// `if resolved, ok := idToName[id]; ok { topicName = resolved }`: the variable later passed
+		// to the guard holds the name the topic ID resolves to -- recorded as resolved[<var>]/pre
+		if as, ok := s.Init.(*ast.AssignStmt); ok && len(as.Lhs) == 2 && len(as.Rhs) == 1 {
+			if ix, ok := as.Rhs[0].(*ast.IndexExpr); ok && strings.HasSuffix(selPath(ix.X), "ToName") {
+				src := selPath(as.Lhs[0])
+				for _, b := range s.Body.List {
+					if a2, ok := b.(*ast.AssignStmt); ok && len(a2.Lhs) == 1 && len(a2.Rhs) == 1 && selPath(a2.Rhs[0]) == src && a2.Tok == token.ASSIGN {
+						ctx.guards = append(ctx.guards, guard{"resolved[" + selPath(a2.Lhs[0]) + "]", "pre"})
+					}
+				}
 			}
 		}
 		// not a guard: condition and both branches are ordinary code
